@@ -161,6 +161,8 @@ def children(T: dict, v: dict) -> list:
         out = [(a, v) for a in T['alts']]
     elif k == 'ann':
         out = [(T['t'], v)]
+    elif k == 'vol':
+        out = [(T['e'], v), ({'k': 'list', 'e': T['e']}, v)]
     elif k == 'sub':
         out = [(T['base'], v)]
     elif k == 'tvar':
@@ -326,6 +328,13 @@ def signature(clause: str, c: Case, ev: dict) -> dict:
     if c.T['k'] == 'cls':
         sig['features'] = cls_features(c.T)
         sig['value_features'] = cls_value_features(c.T, c.v)
+        if c.T['hook']['k'] == 'rangehook':
+            x = ev.get('x') or {}
+            x = x.get('x', x) if isinstance(x, dict) else {}
+            if isinstance(x, dict) and x.get('k') == 'inst':
+                fv = {f[0]: f[1] for f in x['fs']}
+                if fv.get('s_n', {}).get('k') != 'none' and fv.get('s_step', {}).get('k') != 'none':
+                    sig['value_features'] = sorted(sig['value_features'] + ['instance-holds-n-and-step'])
     if isinstance(out, dict):
         sig['outcome'] = out['k'] + (':' + out['c'] if out['k'] == 'exc' else '')
     return sig
@@ -473,7 +482,16 @@ def native_copy(x):
     except that dataclass instances are made with the unchecked constructor of their class)."""
     if isinstance(x, pane.PaneBase):
         kw = {f.name: native_copy(getattr(x, f.name)) for f in type(x).__pane_info__.fields if f.init}
-        return type(x).make_unchecked(**kw)
+        try:
+            return type(x).make_unchecked(**kw)
+        except Exception:  # noqa
+            # a class whose hook derives some fields from the others (pane.types.Range): built from the
+            # fields that were supplied, as a user would
+            given = getattr(x, '__pane_set__', ())
+            try:
+                return type(x).make_unchecked(**{k: v for k, v in kw.items() if k in given})
+            except Exception:  # noqa
+                raise OutOfVocab('no native construction')
     if isinstance(x, (list, tuple, collections.deque)) and type(x) in (list, tuple, collections.deque):
         return type(x)(native_copy(e) for e in x)
     if type(x) in (set, frozenset):
